@@ -287,3 +287,152 @@ Definition f_c : sfile := {| sf_id := 2; sf_module := Some [1; 11]; sf_defs := [
 Example accepted_program : redef_report [f_a; f_b; f_c] = [] /\ sc_lookup [1] (sc_table [f_c; f_a; f_b]) = Some (ScModule [1]) /\
   sc_lookup [1; 2; 3; 4] (sc_table [f_a; f_b; f_c]) = Some (ScEntity 0 [0; 0; 2]) /\ sc_lookup [1; 2; 3; 4] (sc_table [f_c; f_b; f_a]) = Some (ScEntity 0 [0; 0; 2]).
 Proof. repeat split; vm_compute; reflexivity. Qed.
+
+(* ---------- every entity is found under its own scoped identifier ---------- *)
+(* what the redefinition pass does not ask for: a parameter and a return member of one operation may share a name (they share an
+   AST scope; Ast::find_node documents that these "may not be unique"); where they do not, every key names one entity *)
+Definition ops_ok (d : scdef) : Prop :=
+  match d with ScIface _ ops => Forall (fun o => NoDup (sco_params o ++ sco_rets o)) ops | _ => True end.
+
+Lemma NoDup_app_intro {A} (a b : list A) : NoDup a -> NoDup b -> (forall x, In x a -> In x b -> False) -> NoDup (a ++ b).
+Proof.
+  induction a as [|x r IH]; intros Ha Hb Hd; [exact Hb|]. cbn [app]. inversion Ha as [|? ? Hx Hr]; subst. constructor.
+  - intros Hi. apply in_app_or in Hi as [Hi|Hi]; [exact (Hx Hi)|exact (Hd x (or_introl eq_refl) Hi)].
+  - apply IH; [exact Hr|exact Hb|]. intros y Hy. apply Hd. right. exact Hy.
+Qed.
+Lemma NoDup_map_inj {A B} (f : A -> B) l : (forall x y, In x l -> In y l -> f x = f y -> x = y) -> NoDup l -> NoDup (map f l).
+Proof.
+  induction l as [|a r IH]; intros Hinj ND; [constructor|]. inversion ND as [|? ? Ha Hr]; subst. cbn [map]. constructor.
+  - intros Hi. apply in_map_iff in Hi as (y & Ey & Hy). apply Ha. rewrite (Hinj a y (or_introl eq_refl) (or_intror Hy) (eq_sym Ey)). exact Hy.
+  - apply IH; [|exact Hr]. intros x y Hx Hy. apply Hinj; right; assumption.
+Qed.
+Lemma members_fst_nodup d : contents_ok d -> NoDup (map fst (members d)).
+Proof.
+  destruct d as [n fs|n ens|n ops|n]; cbn [contents_ok members]; intros H.
+  - rewrite map_map. cbn [fst]. rewrite map_id. exact H.
+  - exact (proj1 H).
+  - rewrite map_map. cbn [fst]. exact (proj1 H).
+  - constructor.
+Qed.
+Lemma members_snd_nodup d m subs : contents_ok d -> ops_ok d -> In (m, subs) (members d) -> NoDup subs.
+Proof.
+  destruct d as [n fs|n ens|n ops|n]; cbn [contents_ok ops_ok members]; intros H O Hin.
+  - apply in_map_iff in Hin as (f & E & _). inversion E; subst. constructor.
+  - destruct H as [_ H]. rewrite Forall_forall in H. exact (H (m, subs) Hin).
+  - apply in_map_iff in Hin as (o & E & Ho). inversion E; subst. rewrite Forall_forall in O. exact (O o Ho).
+  - destruct Hin.
+Qed.
+Lemma app_inj_tail_list {A} (mp a b : list A) : mp ++ a = mp ++ b -> a = b.
+Proof. apply app_inv_head. Qed.
+
+Lemma entity_keys_of_def_nodup mp d : contents_ok d -> ops_ok d -> NoDup (entity_keys_of_def mp d).
+Proof.
+  intros C O. unfold entity_keys_of_def. pose proof (members_fst_nodup d C) as NF.
+  assert (Len3 : forall k, In k (sub_keys mp d) -> length k = length mp + 3).
+  { intros k H. unfold sub_keys in H. apply in_flat_map in H as (ms & _ & H). apply in_map_iff in H as (x & <- & _). rewrite app_length. reflexivity. }
+  assert (Len2 : forall k, In k (member_keys mp d) -> length k = length mp + 2).
+  { intros k H. unfold member_keys in H. apply in_map_iff in H as (ms & <- & _). rewrite app_length. reflexivity. }
+  apply NoDup_app_intro; [|apply NoDup_app_intro|].
+  - (* sub keys *)
+    unfold sub_keys. revert NF. assert (S : forall m subs, In (m, subs) (members d) -> NoDup subs) by (intros m subs; apply members_snd_nodup; assumption).
+    revert S. generalize (members d). intros l. induction l as [|[m subs] r IH]; intros S NF; [constructor|]. cbn [flat_map map fst snd] in *.
+    inversion NF as [|? ? Hm Hr]; subst. apply NoDup_app_intro.
+    + apply NoDup_map_inj; [|apply (S m subs); left; reflexivity]. intros x y _ _ E. apply app_inv_head in E. inversion E. reflexivity.
+    + apply IH; [intros m' s' H; apply (S m' s'); right; exact H|exact Hr].
+    + intros k H1 H2. apply in_map_iff in H1 as (x & <- & _). apply in_flat_map in H2 as ([m' s'] & Hin & H2). apply in_map_iff in H2 as (y & E & _).
+      apply app_inv_head in E. inversion E; subst. apply Hm. apply in_map_iff. exists (m, s'). split; [reflexivity|exact Hin].
+  - unfold member_keys. apply NoDup_map_inj.
+    + intros [m1 s1] [m2 s2] H1 H2 E. apply app_inv_head in E. inversion E; subst.
+      (* same name: the same member, as names are unique *)
+      clear -NF H1 H2. revert NF H1 H2. generalize (members d). intros l. induction l as [|[m s] r IH]; intros NF H1 H2; [destruct H1|]. cbn [map fst] in NF. inversion NF as [|? ? Hm Hr]; subst.
+      destruct H1 as [E1|H1], H2 as [E2|H2].
+      * congruence.
+      * inversion E1; subst. exfalso. apply Hm. apply in_map_iff. exists (m2, s2). split; [reflexivity|exact H2].
+      * inversion E2; subst. exfalso. apply Hm. apply in_map_iff. exists (m2, s1). split; [reflexivity|exact H1].
+      * exact (IH Hr H1 H2).
+    + clear -NF. revert NF. generalize (members d). intros l. induction l as [|[m s] r IH]; intros NF; [constructor|]. cbn [map fst] in NF. inversion NF as [|? ? Hm Hr]; subst. constructor.
+      * intros Hi. apply Hm. apply in_map_iff. exists (m, s). split; [reflexivity|exact Hi].
+      * exact (IH Hr).
+  - constructor; [intros []|constructor].
+  - intros k H1 [<-|[]]. apply Len2 in H1. unfold def_key in H1. rewrite app_length in H1. cbn [length] in H1. lia.
+  - intros k H1 H2. apply Len3 in H1. apply in_app_or in H2 as [H2|[<-|[]]].
+    + apply Len2 in H2. lia.
+    + unfold def_key in H1. rewrite app_length in H1. cbn [length] in H1. lia.
+Qed.
+
+Lemma mp_not_own_entity mp d : ~ In mp (entity_keys_of_def mp d).
+Proof.
+  intros H. apply entity_key_shape in H. destruct H as [H|(m & subs & _ & [H|(x & _ & H)])];
+    apply (f_equal (@length _)) in H; rewrite app_length in H; cbn [length] in H; lia.
+Qed.
+Lemma entity_keys_nodup f : NoDup (def_keys f) -> Forall contents_ok (match sf_module f with Some _ => sf_defs f | None => [] end) ->
+  Forall ops_ok (match sf_module f with Some _ => sf_defs f | None => [] end) -> NoDup (entity_keys f).
+Proof.
+  unfold entity_keys, def_keys. destruct (sf_module f) as [mp|]; [|constructor]. generalize (sf_defs f). intros l.
+  induction l as [|d r IH]; intros ND C O; [constructor|]. cbn [flat_map map] in *. inversion ND as [|? ? Hd Hr]; subst. inversion C; subst. inversion O; subst.
+  apply NoDup_app_intro.
+  - apply entity_keys_of_def_nodup; assumption.
+  - apply IH; assumption.
+  - intros k K1 K2. apply in_flat_map in K2 as (d' & Hd' & K2). destruct (same_key_entities mp d mp d' k K1 K2) as [E|[X|X]].
+    + apply Hd. unfold def_key. rewrite E. apply in_map_iff. exists d'. split; [reflexivity|exact Hd'].
+    + exact (mp_not_own_entity mp d X).
+    + exact (mp_not_own_entity mp d' X).
+Qed.
+
+Lemma combine_fun {A B} (l : list A) (l' : list B) a b b' : NoDup l -> In (a, b) (combine l l') -> In (a, b') (combine l l') -> b = b'.
+Proof.
+  revert l'. induction l as [|x r IH]; intros l' ND H1 H2; [destruct H1|]. destruct l' as [|y r']; [destruct H1|]. cbn [combine] in *. inversion ND as [|? ? Hx Hr]; subst.
+  destruct H1 as [E1|H1], H2 as [E2|H2].
+  - congruence.
+  - inversion E1; subst. exfalso. apply Hx. eapply in_combine_l. exact H2.
+  - inversion E2; subst. exfalso. apply Hx. eapply in_combine_l. exact H1.
+  - exact (IH r' Hr H1 H2).
+Qed.
+Lemma lookup_unique k t v : In (k, v) t -> (forall w, In (k, w) t -> w = v) -> sc_lookup k t = Some v.
+Proof.
+  induction t as [|[k' u] r IH]; intros Hin Hu; [destruct Hin|]. cbn [sc_lookup].
+  destruct (sc_lookup k r) as [w|] eqn:E.
+  - apply lookup_in in E. f_equal. apply Hu. right. exact E.
+  - destruct Hin as [Heq|Hin].
+    + inversion Heq; subst. destruct (skey_eq_dec k k); [reflexivity|congruence].
+    + assert (X : None = Some v) by (apply (IH Hin); intros w Hw; apply Hu; right; exact Hw). discriminate X.
+Qed.
+Lemma nodup_flat_map_part {A B} (g : A -> list B) l a : NoDup (flat_map g l) -> In a l -> NoDup (g a).
+Proof.
+  induction l as [|c r IH]; intros ND Ha; [destruct Ha|]. cbn [flat_map] in ND. destruct Ha as [<-|Ha].
+  - clear IH. induction (g c) as [|u gc IHg]; [constructor|]. cbn [app] in ND. inversion ND as [|? ? Hu Hr]; subst. constructor; [|exact (IHg Hr)].
+    intros Hi. apply Hu. apply in_or_app. left. exact Hi.
+  - apply IH; [|exact Ha]. clear -ND. induction (g c) as [|u gc IHg]; [exact ND|]. inversion ND; subst. apply IHg. assumption.
+Qed.
+
+(* After a silent redefinition pass every definition, field, enumerator, operation -- every entity entered in the table -- is what
+   its own scoped identifier leads to, whatever the order of the files (parameters and return members too, where an operation does
+   not use one name for both). *)
+Theorem entity_found_by_its_scoped_identifier fs k f p :
+  redef_report fs = [] -> Forall ops_ok (all_defs fs) -> In f fs -> In (k, ScEntity (sf_id f) p) (file_entries f) ->
+  sc_lookup k (sc_table fs) = Some (ScEntity (sf_id f) p).
+Proof.
+  intros Hok Hops Hf Hin. apply redef_report_silent_iff in Hok. pose proof Hok as (A & B & C).
+  apply lookup_unique.
+  - unfold sc_table. apply in_flat_map. exists f. split; assumption.
+  - intros w Hw. unfold sc_table in Hw. apply in_flat_map in Hw as (f2 & Hf2 & Hw).
+    destruct (same_key_entries fs f f2 k _ w Hok Hf Hf2 Hin Hw) as [[E _]|<-]; [discriminate|].
+    (* the same file: its entity keys are distinct and none is its module's *)
+    unfold file_entries in Hin, Hw. destruct (sf_module f) as [mp|] eqn:Em; [|destruct Hin].
+    assert (NDf : NoDup (entity_keys f)).
+    { apply entity_keys_nodup.
+      - apply (nodup_flat_map_part def_keys fs f B Hf).
+      - rewrite Em. unfold all_defs in C. rewrite Forall_forall in C. apply Forall_forall. intros d Hd. apply C. apply in_flat_map. exists f. rewrite Em. split; assumption.
+      - rewrite Em. unfold all_defs in Hops. rewrite Forall_forall in Hops. apply Forall_forall. intros d Hd. apply Hops. apply in_flat_map. exists f. rewrite Em. split; assumption. }
+    apply in_app_or in Hin as [Hin|[Hin|[]]]; [|inversion Hin].
+    apply in_app_or in Hw as [Hw|[Hw|[]]].
+    + symmetry. exact (combine_fun _ _ _ _ _ NDf Hin Hw).
+    + inversion Hw; subst. exfalso. apply (A k).
+      * unfold all_entity_keys. apply in_flat_map. exists f. split; [exact Hf|]. eapply in_combine_l. exact Hin.
+      * unfold all_module_keys. apply in_flat_map. exists f. split; [exact Hf|]. unfold module_keys. rewrite Em. left. reflexivity.
+Qed.
+Corollary entities_retrievable fs f k : redef_report fs = [] -> Forall ops_ok (all_defs fs) -> In f fs -> In k (entity_keys f) ->
+  exists p, sc_lookup k (sc_table fs) = Some (ScEntity (sf_id f) p).
+Proof.
+  intros Hok Hops Hf Hk. destruct (every_entity_entered f k Hk) as [p Hp]. exists p. apply entity_found_by_its_scoped_identifier; assumption.
+Qed.
